@@ -667,6 +667,7 @@ def rule_hd_startwin(cx, rep, port):
     if sm is not None:
         for k_ in ('star keys', 'star targets', 'star expansion form', 'star token', 'star right context', 'comma handling'):
             rep.decide(sm == '', k_, f1, 'both star rewrites evaluated on 14 select lists: the record side splices star_fields / record_a / record_b between list literals, the header side puts the star marker in the same item position', sm)
+        _hd_list_wrapping(cx, rep, port, p, mod)
         return
     rep._fallback = 'the star rewrites are outside the abstract interpreter'
     def info(fd):
@@ -771,12 +772,50 @@ def rule_hd_startwin(cx, rep, port):
         rep.undecided('comma handling', f1, 'how the two star rewrites step over the comma after a star item was not recognised')
     else:
         rep.decide(ok1 and ok2, 'comma handling', e1[0][0] if e1 else f1, 'record side consumes the comma after a star (the concatenation replaces it); header side keeps it', 'comma handling after a star item changed: the record-side and header-side item counts would differ')
-    # wrapping: '[{}]' / '[].concat([...])'
+    rep._fallback = None
+    _hd_list_wrapping(cx, rep, port, p, mod)
+
+
+def _hd_list_wrapping(cx, rep, port, p, mod):
+    # wrapping: '[{}]' / '[].concat([...])' - decided by evaluating translate_select_expression on five select lists
+    from .. import absexec as AX
     ts = p.func(mod, 'translate_select_expression')
+    py = port == 'py'
+    cases = [('a1, a2 as total, *', ('[a1, a2] + star_fields + []', 'a1, a2 == alias_column_as_pseudo_func(total),__RBQL_INTERNAL_STAR') if py else ('[].concat([a1, a2]).concat(star_fields).concat([])', 'a1, a2 as total,__RBQL_INTERNAL_STAR')),
+             ('count(*), a.*', ('[COUNT(1)] + record_a + []', 'COUNT(1),a.__RBQL_INTERNAL_STAR') if py else ('[].concat([COUNT(1)]).concat(record_a).concat([])', 'COUNT(1),a.__RBQL_INTERNAL_STAR')),
+             ('a1 AS  x', ('[a1]', 'a1 == alias_column_as_pseudo_func(x)') if py else ('[].concat([a1])', 'a1 AS  x')),
+             ('a1', ('[a1]', 'a1') if py else ('[].concat([a1])', 'a1')), ('', 'error'), ('   ', 'error')]
+    problem, gave_up = None, None
+    try:
+        for text, want in cases:
+            def on_call(ex, node, fname, recv, args):
+                if isinstance(node.func, ast.Name) and node.func.id.endswith('Error'):
+                    return AX.Abs('Exc', cls=node.func.id)
+                return AX.NOT_HANDLED
+            runs, cut = AX.Explorer(p, mod, on_call=on_call, max_choices=1).explore(ts, [text])
+            if cut or len(runs) != 1:
+                raise Undecided('translate_select_expression does not complete for {!r}'.format(text), ts)
+            kind, val, _n = runs[0].outcome
+            got = ('error' if isinstance(val, AX.Abs) and val.props.get('cls') == 'RbqlParsingError' else 'another error') if kind == 'raise' else (tuple(val) if isinstance(val, (list, tuple)) and len(val) == 2 and all(isinstance(x, str) for x in val) else None)
+            if got is None:
+                raise Undecided('translate_select_expression result {!r}'.format(val), ts)
+            if got != want and problem is None:
+                problem = 'the select list `{}` is translated to {!r} instead of {!r} (the record expression must be a fresh list spliced with the star records; the header text keeps one item per output column)'.format(text, got, want)
+    except (Undecided, AX.Cut, AX._NeedChoice, KeyError, IndexError, TypeError, AttributeError, ValueError) as e_:
+        gave_up = str(e_)[:160]
+        import os
+        if os.environ.get('RBQL_VERIF_DEBUG'):
+            print('translate_select_expression model gave up:', type(e_).__name__, gave_up)
+    if gave_up is None:
+        rep.decide(problem is None, 'list wrapping', ts, 'the select list is evaluated as a fresh list literal; aliases and COUNT(*) are rewritten; an empty list is the parsing error (translate_select_expression evaluated on six select lists)', problem or '')
+        return
     rets = [r for r in walk_no_nested(ts) if isinstance(r, ast.Return)]
     t = node_text(rets[-1].value, 300) if rets else ''
     okw = ("'[{}]'.format(translated)" in t) if port == 'py' else ("f'[].concat([{translated}])'" in t)
-    rep.decide(okw, 'list wrapping', rets[-1] if rets else ts, 'the select list is evaluated as a fresh list literal', 'the translated select list is no longer wrapped as a fresh list literal')
+    if okw:
+        rep.holds('list wrapping', rets[-1], 'the select list is evaluated as a fresh list literal')
+    else:
+        rep.undecided('list wrapping', rets[-1] if rets else ts, 'translate_select_expression is outside the abstract interpreter ({}) and its return is not the known wrapping'.format(gave_up))
 
 
 def _except_model(cx, rep, port, p, mod, fd):
